@@ -30,6 +30,9 @@ def sym_arg(name, ty):
     if ty == "opaque":
         from .core import Opaque
         return Opaque(name)
+    if ty == "slice":
+        from .models import PySlice
+        return PySlice(sym_arg(name + ".start", ("opt", "int")), sym_arg(name + ".stop", ("opt", "int")), sym_arg(name + ".step", ("opt", "int")))
     return Sym(z3.Const(name, sort_of(ty)), ty)
 
 
@@ -44,6 +47,7 @@ def verify_function(src, con, models, axioms=(), prefix=None, prune=True):
         return dict(obligations=[], paths=0, error=f"function {con.qual} not found in {con.file}", meta={})
     eng = Engine(src, con.file, models, sink, list(axioms), prune)
     eng.prefix = prefix or con.qual
+    eng.cur_fn_name = con.qual
     eng.index_function(fd)
     eng.cur_contract = con
     eng.loop_counter = [0]
@@ -192,6 +196,20 @@ def _check(hyps, goal, timeout_ms, seed=0):
     return r, time.time() - t0, s
 
 
+def has_quant(t, _seen=None):
+    """does the formula contain a quantifier anywhere?"""
+    todo, seen = [t], set()
+    while todo:
+        x = todo.pop()
+        if x.get_id() in seen:
+            continue
+        seen.add(x.get_id())
+        if z3.is_quantifier(x):
+            return True
+        todo.extend(x.children())
+    return False
+
+
 def _keywords(name):
     """clause keyword of an obligation name: 'f/ensures.INV.clock-aligned@split0[...]' -> 'clock-aligned'"""
     base = name.split("[")[0].split("/")[-1]
@@ -204,7 +222,7 @@ def discharge(ob, timeout_ms=10000, want_model=True):
     always sound; only a 'sat' of the *full* query is a counter-model)."""
     names = ob.meta.get("hyp_names") or [None] * len(ob.hyps)
     kw = _keywords(ob.name)
-    qf = [h for h in ob.hyps if not z3.is_quantifier(h)]
+    qf = [h for h in ob.hyps if not has_quant(h)]
     sliced = []
     for h, n in zip(ob.hyps, names):
         al = ("clock" in ob.name or "aligned" in ob.name)
@@ -233,6 +251,19 @@ def discharge(ob, timeout_ms=10000, want_model=True):
             break
         if s is None or label.startswith("full"):
             s = s1
+    if r == z3.unknown and qf:
+        # model search without the quantified hypotheses: a model found here is only a *candidate* counterexample
+        # (hypotheses were dropped); it is reported as 'sat?' and has to be confirmed by a replay on the real code
+        r2, dt2, s2 = _check(qf, ob.goal, min(5000, timeout_ms))
+        tried.append("model-search")
+        total += dt2
+        if r2 == z3.sat:
+            out = {"verdict": "sat?", "time_s": round(total, 4), "tried": tried, "solver": s2}
+            if want_model:
+                m = s2.model()
+                out["model"] = {str(d): str(m[d]) for d in m.decls() if d.arity() == 0}
+                out["model_obj"] = m
+            return out
     out = {"verdict": str(r), "time_s": round(total, 4), "tried": tried}
     if r == z3.sat and want_model:
         m = s.model()
